@@ -121,7 +121,13 @@ def unread_params(fn: ast.FunctionDef) -> List[str]:
 # ------------------------------------------------------------------------------------------------
 
 def check_py_interp(fn: ast.FunctionDef) -> Tuple[bool, str, dict]:
-    """Is the python helper `interp(x_new, x, y)` the linear interpolant between two adjacent samples?"""
+    """Is the python helper `interp(x_new, x, y)` the linear interpolant between two adjacent samples?
+
+    Every path through the helper is executed symbolically (assignments, incl. tuple assignments, update an environment of sympy
+    values); the value returned on a path must be either a sample `y[...]` (clamp) or normalise to
+    y[lo] + (q - x[lo]) / (x[hi] - x[lo]) * (y[hi] - y[lo]) with hi == lo + 1, where lo is read off the returned expression."""
+    from engine.cfg import CFG
+    from engine.util import enumerate_paths
     params = [a.arg for a in fn.args.args]
     if len(params) != 3:
         raise AnalysisError(f"interp helper has {len(params)} parameters, expected (x_new, x, y)")
@@ -133,56 +139,67 @@ def check_py_interp(fn: ast.FunctionDef) -> Tuple[bool, str, dict]:
     up = unread_params(fn)
     if up:
         return False, f"parameter(s) {up} are never read", facts
-    # bracketing pairs: tuple assignments `i1, i2 = a, b`
-    pairs = []
+    cfg = CFG(fn)
+    paths = [p for p in enumerate_paths(cfg) if p[-1] is cfg.EXIT]
+    Yf, Xf, qs = sp.Function(Yn), sp.Function(X), sp.Symbol(q)
+    n_interior = 0
+    results = []
+    for path in paths:
+        env: Dict[str, sp.Expr] = {}
+        ret = None
+        for st in path:
+            if isinstance(st, ast.Assign) and len(st.targets) == 1:
+                t, v = st.targets[0], st.value
+                try:
+                    if isinstance(t, ast.Name):
+                        env[t.id] = symx.to_sympy(v, env=env)
+                    elif isinstance(t, ast.Tuple) and isinstance(v, ast.Tuple) and len(t.elts) == len(v.elts) \
+                            and all(isinstance(e, ast.Name) for e in t.elts):
+                        vals = [symx.to_sympy(e, env=env) for e in v.elts]
+                        for e, val in zip(t.elts, vals):
+                            env[e.id] = val
+                    else:
+                        raise AnalysisError(f"interp helper: unrecognised assignment `{ast.unparse(st)}`")
+                except symx.Unsupported:
+                    if isinstance(t, ast.Name):
+                        env.pop(t.id, None)
+            elif isinstance(st, ast.AugAssign):
+                raise AnalysisError(f"interp helper: unrecognised statement `{ast.unparse(st)}`")
+            elif isinstance(st, ast.Return):
+                ret = st
+        if ret is None or ret.value is None:
+            return False, "a path through the helper returns nothing", facts
+        try:
+            expr = symx.to_sympy(ret.value, env=env)
+        except symx.Unsupported as e:
+            raise AnalysisError(f"interp helper: unsupported return expression: {e}")
+        results.append((ret, expr))
+    seen = set()
+    for ret, expr in results:
+        key = (id(ret), str(expr))
+        if key in seen:
+            continue
+        seen.add(key)
+        if expr.func == Yf and len(expr.args) == 1:
+            continue                                  # clamp: a sample of y
+        if qs not in expr.free_symbols:
+            return False, f"the value returned by `{ast.unparse(ret)}` is neither a sample of `{Yn}` nor depends on the query point `{q}`", facts
+        cands = sorted({a.args[0] for a in expr.atoms(sp.Function) if a.func == Yf and len(a.args) == 1}, key=str)
+        facts["return"] = ast.unparse(ret.value)
+        lo = next((c for c in cands if symx.is_linear_interpolant(expr, q=qs, Y=Yn, X=X, lo=c, hi=c + 1)), None)
+        if lo is None:
+            pair = next(((a_, b_) for a_ in cands for b_ in cands if a_ != b_ and symx.is_linear_interpolant(expr, q=qs, Y=Yn, X=X, lo=a_, hi=b_)), None)
+            if pair is not None:
+                return False, f"the bracketing pair ({pair[0]}, {pair[1]}) is not two adjacent samples (hi != lo + 1)", facts
+            return False, (f"the returned value is not {Yn}[lo] + ({q}-{X}[lo])/({X}[hi]-{X}[lo])*({Yn}[hi]-{Yn}[lo]) for a "
+                           f"bracketing pair of adjacent samples"), facts
+        n_interior += 1
+        facts.setdefault("brackets", []).append(f"({lo}, {lo + 1})")
+    if n_interior == 0:
+        return False, "no path returns an interpolated value", facts
     for n in ast.walk(fn):
-        if isinstance(n, ast.Assign) and isinstance(n.targets[0], ast.Tuple) and isinstance(n.value, ast.Tuple) \
-                and len(n.targets[0].elts) == 2 and len(n.value.elts) == 2:
-            pairs.append(n)
-    returns = sorted([n for n in ast.walk(fn) if isinstance(n, ast.Return)], key=lambda n: n.lineno)
-    if not returns:
-        return False, "helper has no return", facts
-    main = returns[-1]
-    lo_name = hi_name = None
-    if pairs:
-        names = {tuple(e.id for e in p.targets[0].elts) for p in pairs}
-        if len(names) != 1:
-            raise AnalysisError("interp helper: bracketing pair assigned to different names in different branches")
-        lo_name, hi_name = names.pop()
-        for p in pairs:
-            a, b = (symx.to_sympy(e) for e in p.value.elts)
-            if sp.simplify(b - a - 1) != 0:
-                return False, f"bracketing pair `{ast.unparse(p)}` is not two adjacent samples (hi != lo + 1)", facts
-    else:
-        raise AnalysisError("interp helper: no bracketing pair assignment found (unrecognised form)")
-    # inline plain local definitions (w = (x_new - x[i1]) / ...) into the returned expression
-    env = {}
-    for st in fn.body:
-        if isinstance(st, ast.Assign) and len(st.targets) == 1 and isinstance(st.targets[0], ast.Name) \
-                and st.targets[0].id not in (lo_name, hi_name):
-            try:
-                env[st.targets[0].id] = symx.to_sympy(st.value, env=env)
-            except symx.Unsupported:
-                pass
-    try:
-        expr = symx.to_sympy(main.value, env=env)
-    except symx.Unsupported as e:
-        raise AnalysisError(f"interp helper: unsupported return expression: {e}")
-    facts["return"] = ast.unparse(main.value)
-    lo, hi = sp.Symbol(lo_name), sp.Symbol(hi_name)
-    if sp.Symbol(q) not in expr.free_symbols:
-        return False, f"the returned value does not depend on the query point `{q}`", facts
-    if not symx.is_linear_interpolant(expr, q=sp.Symbol(q), Y=Yn, X=X, lo=lo, hi=hi):
-        return False, (f"the returned value is not {Yn}[lo] + ({q}-{X}[lo])/({X}[hi]-{X}[lo])*({Yn}[hi]-{Yn}[lo]) for the "
-                       f"bracketing pair (lo={lo_name}, hi={hi_name})"), facts
-    # other returns must be clamps: y[<something>]
-    for r in returns[:-1]:
-        if not (isinstance(r.value, ast.Subscript) and isinstance(r.value.value, ast.Name) and r.value.value.id == Yn):
-            return False, f"early return `{ast.unparse(r)}` is not a sample of `{Yn}`", facts
-    # branch condition: which side of x[idx] the query lies on
-    for n in ast.walk(fn):
-        if isinstance(n, ast.If) and any(p in ast.walk(n) for p in pairs):
-            facts["branch"] = ast.unparse(n.test)
+        if isinstance(n, ast.If):
+            facts.setdefault("branch", ast.unparse(n.test))
     return True, "linear interpolant between two adjacent samples", facts
 
 
@@ -194,7 +211,10 @@ _ASSIGN = re.compile(r"^\s*([A-Za-z_⟨⟩][\w⟨⟩]*)\s*=\s*(.+?)\s*$")
 
 
 def check_fortran_interp(template: str) -> Tuple[bool, str, dict]:
-    text = template.replace("⟨fname⟩", "FNAME")
+    mh = re.search(r"function\s+⟨(\w+)⟩\s*\(", template)
+    if not mh:
+        raise AnalysisError("fortran interp: `function <name>(...)` header with a name hole not found (unrecognised form)")
+    text = template.replace("⟨" + mh.group(1) + "⟩", "FNAME")
     facts = {}
     lines = [l.strip() for l in text.splitlines()]
     # search loop: `if (x(n) > x_new) exit` => after the loop x(n-1) <= x_new < x(n)
